@@ -1,4 +1,5 @@
 import Rangers.Model.Decimal
+import Rangers.Model.DecimalTx
 import Rangers.Generated.C18Facts
 /-!
 # C18 — facts re-extracted from the source on every run (T-gen)
@@ -92,5 +93,61 @@ theorem gen_fork_flag_reads :
     C18.forkFlagReads =
       ["AddFT:common.IsProposal002", "SubFT:common.IsProposal002", "GetERC20Binding:common.IsSub",
        "decodeContractData:common.IsProposal017", "decodeContractData:common.IsProposal005"] := by decide
+
+/-- gas-limit defaults of contract_executor.go are the model's. -/
+theorem gen_gas_defaults : C18.gasDefaults = [defaultGasLimit, p017defaultGasLimit] := by decide
+
+/-- Guards of `decodeContractData` in source order (JSON error; gas limit empty or "0" →
+    default, chosen by Proposal017; `ParseUint(_, 10, 64)` error; `StrToBigInt` error;
+    Proposal005 ∧ ABI data empty or "0x0" → no input) — the branch structure of the model's
+    `decodeContractData`. -/
+theorem gen_decode_guards :
+    C18.decodeConds = ["_ != nil", "_.GasLimit == \"\" || _.GasLimit == \"0\"", "common.IsProposal017()", "_ != nil",
+      "_ != nil", "common.IsProposal005() && (_.AbiData == \"\" || _.AbiData == \"0x0\")"] ∧
+    C18.decodeParseUint = ["strconv.ParseUint(_.GasLimit, 10, 64)"] := by decide
+
+/-- What `ConvertTx` writes into each `ContractData` field (model: `convertTxData`). -/
+theorem gen_convert_fields :
+    C18.convertFields = ["AbiData = common.ToHex(_.Data())", "TransferValue = utility.BigIntToStr(_)",
+      "GasPrice = _.GasPrice().String()", "GasLimit = strconv.FormatUint(_.Gas(), 10)"] := by decide
+
+/-- Guards of `common.FromHex` / `ToHex` and the byte order of the uint64 helpers
+    (model: `fromHex`, `toHex`, `uint64ToByte`, `byteToUInt64`). -/
+theorem gen_hex_and_bytes :
+    C18.fromHexConds = ["len(_) > 1", "_[0:2] == \"0x\" || _[0:2] == \"0X\"", "len(_) % 2 == 1"] ∧
+    C18.toHexConds = ["len(_) == 0"] ∧
+    C18.byteHelperCalls = ["UInt64ToByte:binary.Write(_, binary.BigEndian, _)",
+      "ByteToUInt64:binary.Read(_, binary.BigEndian, &_)"] := by decide
+
+/-- Every guard of the token layer (`AccountDB.GetFT/SetFT/AddFT/SubFT`, the account-object
+    FT functions of the unbound path, `GetERC20Binding`, `AddERC20Binding`) and of
+    `transferBalance`: the comparison operators and nil / zero tests the `World` model and
+    `gameTransfer` transcribe. -/
+theorem gen_token_layer_guards :
+    C18.tokenLayerConds = ["AccountDB.GetFT: _",
+      "AccountDB.GetFT: _ == nil",
+      "AccountDB.SetFT: nil == _",
+      "AccountDB.SetFT: _",
+      "AccountDB.AddFT: nil == _",
+      "AccountDB.AddFT: _",
+      "AccountDB.AddFT: common.IsProposal002()",
+      "AccountDB.SubFT: nil == _",
+      "AccountDB.SubFT: _",
+      "AccountDB.SubFT: _.Cmp(_) < 0",
+      "AccountDB.SubFT: common.IsProposal002()",
+      "accountObject.getFT: nil == _ || 0 == len(_)",
+      "accountObject.AddFT: _.Sign() == 0",
+      "accountObject.AddFT: _.empty()",
+      "accountObject.AddFT: nil == _",
+      "accountObject.SubFT: _.Sign() == 0",
+      "accountObject.SubFT: nil == _",
+      "accountObject.SubFT: nil == _ || _.Cmp(_) == -1",
+      "accountObject.SetFT: nil == _",
+      "GetERC20Binding: 0 == _.Compare(_, common.BLANCE_NAME)",
+      "GetERC20Binding: 0 == _.Compare(_.Bytes(), ?.Bytes())",
+      "GetERC20Binding: common.IsSub()",
+      "GetERC20Binding: !_.Exist(_)",
+      "AddERC20Binding: _.Exist(_)"] ∧
+    C18.transferBalanceConds = ["_ != nil", "_.Sign() == -1", "_.Cmp(_) == -1"] := by decide
 
 end Rangers.Props.C18Gen
